@@ -168,12 +168,13 @@ int Canon::canon(int t) {
   for (auto &a : x.a) if (x.op != TT.OP_SYM && x.op != TT.OP_PTR) a = canon(a);
   int r = -1;
   const std::string op = OPS.name(x.op);
+  if (getenv("IRFLOW_DEBUG2") && x.op == TT.OP_FMUL) fprintf(stderr, "canon fmul: %s | a0op=%s a1op=%s v1=%g\n", TT.str(t).c_str(), OPS.name(TT.t[x.a[0]].op).c_str(), OPS.name(TT.t[x.a[1]].op).c_str(), TT.cfval(x.a[1]));
   if (!x.a.empty() && x.op != TT.OP_SYM && x.op != TT.OP_PTR && x.bytes <= 8 && x.op != TT.OP_CONCAT) { // integer constant folding
     bool allc = true; for (int a : x.a) if (TT.t[a].op != TT.OP_C) allc = false;
     if (allc) { int tmp = TT.mk(x.op, x.a, x.k, x.bytes); std::unordered_map<int, uint64_t> em; uint64_t v; if (evalBits(tmp, 0, em, v)) { int by = x.bytes; int64_t sv = by < 8 ? (int64_t)(v << (64 - 8 * by)) >> (64 - 8 * by) : (int64_t)v; memo[t] = TT.cint(sv, by); return memo[t]; } }
   }
   auto mk = [&](int o, std::vector<int> a, int64_t k, int by) { if (commutative(o) && a.size() == 2 && a[1] < a[0]) std::swap(a[0], a[1]); if ((o == TT.OP_FMA) && a[1] < a[0]) std::swap(a[0], a[1]); return TT.mk(o, a, k, by); };
-  if (x.op == TT.OP_FMULADD) r = mk(TT.OP_FADD, {mk(TT.OP_FMUL, {x.a[0], x.a[1]}, 0, x.bytes), x.a[2]}, 0, x.bytes);
+  if (x.op == TT.OP_FMULADD) r = canon(mk(TT.OP_FADD, {canon(mk(TT.OP_FMUL, {x.a[0], x.a[1]}, 0, x.bytes)), x.a[2]}, 0, x.bytes));
   else if (x.op == TT.OP_XOR && x.a.size() == 2 && (x.bytes == 4 || x.bytes == 8) && (isSignMask(TT.t[x.a[0]], x.bytes) || isSignMask(TT.t[x.a[1]], x.bytes))) { int other = isSignMask(TT.t[x.a[0]], x.bytes) ? x.a[1] : x.a[0]; r = canon(TT.mk(TT.OP_FNEG, {other}, 0, x.bytes)); }
   else if (x.op == TT.OP_AND && x.a.size() == 2 && (x.bytes == 4 || x.bytes == 8)) {
     auto isAbsMask = [&](const Term &c) { return c.op == TT.OP_C && ((x.bytes == 4 && (int32_t)c.k == INT32_MAX) || (x.bytes == 8 && c.k == INT64_MAX)); };
@@ -273,6 +274,8 @@ int Canon::canon(int t) {
     r = TT.mk(TT.OP_ZEXT, {lt}, 1, x.bytes);
   }
   // sign manipulations that are exact in IEEE arithmetic
+  else if (x.op == TT.OP_FMUL && TT.t[x.a[0]].op == TT.OP_CF && TT.cfval(x.a[0]) == -1.0) r = canon(TT.mk(TT.OP_FNEG, {x.a[1]}, 0, x.bytes));
+  else if (x.op == TT.OP_FMUL && TT.t[x.a[1]].op == TT.OP_CF && TT.cfval(x.a[1]) == -1.0) r = canon(TT.mk(TT.OP_FNEG, {x.a[0]}, 0, x.bytes));
   else if (x.op == TT.OP_FMUL && TT.t[x.a[0]].op == TT.OP_FNEG) r = canon(TT.mk(TT.OP_FNEG, {mk(TT.OP_FMUL, {TT.t[x.a[0]].a[0], x.a[1]}, 0, x.bytes)}, 0, x.bytes));
   else if (x.op == TT.OP_FMUL && TT.t[x.a[1]].op == TT.OP_FNEG) r = canon(TT.mk(TT.OP_FNEG, {mk(TT.OP_FMUL, {x.a[0], TT.t[x.a[1]].a[0]}, 0, x.bytes)}, 0, x.bytes));
   else if (x.op == TT.OP_FDIV && TT.t[x.a[0]].op == TT.OP_FNEG) r = canon(TT.mk(TT.OP_FNEG, {TT.mk(TT.OP_FDIV, {TT.t[x.a[0]].a[0], x.a[1]}, 0, x.bytes)}, 0, x.bytes));
